@@ -84,7 +84,7 @@ func runProperty(prop, tier, repo, verif string, seed int64, fn propertyCheck) (
 	}()
 	var configs []string
 	for i, arch := range archs {
-		c, err := Load(repo, arch, nil, nil)
+		c, err := LoadNormalized(repo, arch, nil)
 		if err != nil {
 			if r == nil {
 				r = newRun(prop, tier, nil)
@@ -99,6 +99,12 @@ func runProperty(prop, tier, repo, verif string, seed int64, fn propertyCheck) (
 			r = newRun(prop, tier, c)
 			r.Explain = explanations[prop]
 			fn(r)
+			if len(c.NormNotes) > 0 {
+				analysed["normalisation"] = c.NormNotes
+				for _, nt := range c.NormNotes {
+					fmt.Printf("   normalise: %s\n", nt)
+				}
+			}
 			analysed["package"] = modPath
 			analysed["files"] = c.Files
 			analysed["functions"] = len(c.Funcs)
@@ -143,7 +149,7 @@ func doReplay(path, repo, verif string, seed int64) int {
 		fmt.Println("unknown property in replay file")
 		return 2
 	}
-	c, err := Load(repo, "amd64", nil, nil)
+	c, err := LoadNormalized(repo, "amd64", nil)
 	if err != nil {
 		fmt.Println(err)
 		return 1
